@@ -10,7 +10,7 @@ RULE = ("dates: all ordinals in thorough (exhaustive), boundary/month-end/seeded
         "distinct key = (pattern, direction, width/fraction class, boundary class)")
 ASSUMPTIONS = ["Python 3.12 datetime.fromisoformat/isoformat as the independent ISO-8601 implementation (truncates fractions to microseconds)"]
 MIN_NT = {"quick": 100, "thorough": 150}
-REQUIRED = {"any": ["date", "time", "ldt", "instant", "offset"]}
+REQUIRED = {"any": ["date", "time", "ldt", "instant", "offset", "wide_years", "letter_routes", "fresh_process_orders"]}
 EXHAUSTIVE = {"thorough": True}
 
 MAXORD = 3652059
@@ -22,8 +22,10 @@ def shards(tier, seed):
         n = 32; step = (MAXORD + n - 1) // n
         out = [{"name": f"dates:{i}", "part": "dates", "lo": 1 + i * step, "hi": min(MAXORD, (i + 1) * step)} for i in range(n)]
         out += [{"name": f"mixed:{i}", "part": "mixed", "n": 40000} for i in range(8)]
+        out += [{"name": f"routes:{i}", "part": "routes", "orders": 12, "cultures": 60} for i in range(4)]
         return out
-    return [{"name": "dates:sample", "part": "dates_sample"}] + [{"name": f"mixed:{i}", "part": "mixed", "n": 2500} for i in range(4)] + [{"name": "offsets", "part": "offsets"}]
+    return ([{"name": "dates:sample", "part": "dates_sample"}] + [{"name": f"mixed:{i}", "part": "mixed", "n": 2500} for i in range(4)] + [{"name": "offsets", "part": "offsets"}]
+            + [{"name": "routes", "part": "routes", "orders": 6, "cultures": 16}])
 
 
 def V(ctx, k, what, case, obs=None, exp=None):
@@ -202,11 +204,114 @@ def check_offset(ctx, minutes):
         V(ctx, "offset-z", f"general_invariant_with_z.format(zero) = {P['off_z'].format(o)!r}", case)
 
 
+def iso_year(y):
+    return ("-" if y < 0 else "") + "%04d" % abs(y)
+
+
+def check_wide_years(ctx, rng, n):
+    """Years outside the stdlib's 1..9999 (0 and the negative years): the documented fixed-width shape is the oracle: [-]YYYY with year 0 written 0000."""
+    from pyoda_time import LocalDate, LocalTime, Offset
+    P = pats()
+    years = [0, -1, -9, -10, -99, -100, -999, -1000, -9998, 1, 9, 10, 99, 100, 999, 1000, 9999] + [rng.randint(-9998, 0) for _ in range(n)]
+    for y in years:
+        m = rng.randint(1, 12); d = rng.randint(1, 28); sec = rng.randrange(86400)
+        ld = LocalDate(y, m, d); ldt = ld.at(LocalTime.from_seconds_since_midnight(sec))
+        hh, mi, ss = sec // 3600, sec // 60 % 60, sec % 60
+        exp_d = f"{iso_year(y)}-{m:02d}-{d:02d}"; exp_t = f"{hh:02d}:{mi:02d}:{ss:02d}"
+        case = {"kind": "wide_year", "y": y, "m": m, "d": d, "sec": sec}
+        ctx.ev(); ctx.count("wide_years"); ctx.key(("wide-year", (y > 0) - (y < 0), len(str(abs(y)))))
+        got = {"date": P["date"].format(ld), "ldt_general_iso": P["ldt_general_iso"].format(ldt), "ldt_extended_iso": P["ldt_extended_iso"].format(ldt),
+               "inst_general": P["inst_general"].format(ldt.with_offset(Offset.zero).to_instant()), "inst_extended_iso": P["inst_extended_iso"].format(ldt.with_offset(Offset.zero).to_instant())}
+        want = {"date": exp_d, "ldt_general_iso": f"{exp_d}T{exp_t}", "ldt_extended_iso": f"{exp_d}T{exp_t}", "inst_general": f"{exp_d}T{exp_t}Z", "inst_extended_iso": f"{exp_d}T{exp_t}Z"}
+        for k in got:
+            if got[k] != want[k]:
+                V(ctx, f"year-shape:{k}", f"{k} writes year {y} ({m}/{d} {exp_t}) as {got[k]!r}; fixed-width ISO text is {want[k]!r}", case, got[k], want[k])
+            else:
+                r = P[k].parse(want[k])
+                if not r.success: V(ctx, f"year-own-parse:{k}", f"{k} rejects its own ISO text {want[k]!r}", case)
+
+
+def check_routes(ctx, rng, n_orders, n_cultures):
+    """The ISO patterns reached by their standard letters, in any culture and as the current culture, and str(): the same text as the built-in properties;
+    and, in fresh interpreters, whatever order the built-ins are first touched in."""
+    import json as _json
+    import os
+    import subprocess
+    import sys
+    from pyoda_time import Instant, LocalDate, LocalTime
+    from pyoda_time import text as T
+    from pyoda_time._compatibility._culture_info import CultureInfo
+    from pyoda_time._compatibility._culture_types import CultureTypes
+    allc = [c for c in CultureInfo.get_cultures(CultureTypes.ALL_CULTURES) if c.name]
+    def seps(c):
+        try:
+            return (c.date_time_format.time_separator, c.date_time_format.date_separator)
+        except Exception:  # noqa: BLE001
+            return (":", "/")
+    odd = [c for c in allc if seps(c)[0] != ":" or seps(c)[1] not in ("/", "-")]
+    cults = [CultureInfo.invariant_culture] + rng.sample(odd, min(len(odd), n_cultures // 2)) + rng.sample(allc, min(len(allc), n_cultures // 2))
+    TABLE = [(T.LocalDatePattern, "R", T.LocalDatePattern.iso), (T.LocalTimePattern, "o", T.LocalTimePattern.extended_iso), (T.LocalTimePattern, "O", T.LocalTimePattern.long_extended_iso),
+             (T.LocalDateTimePattern, "s", T.LocalDateTimePattern.general_iso), (T.LocalDateTimePattern, "S", T.LocalDateTimePattern.extended_iso),
+             (T.LocalDateTimePattern, "o", T.LocalDateTimePattern.bcl_round_trip), (T.LocalDateTimePattern, "O", T.LocalDateTimePattern.bcl_round_trip), (T.InstantPattern, "g", T.InstantPattern.general)]
+    saved = CultureInfo.current_culture
+    try:
+        for c in cults:
+            d = LocalDate(rng.randint(1, 9999), rng.randint(1, 12), rng.randint(1, 28)); t = LocalTime.from_nanoseconds_since_midnight(rng.randrange(86400) * 10**9 + rng.choice([0, 120_000_000, 1, 999_999_900]))
+            vals = {"LocalDatePattern": d, "LocalTimePattern": t, "LocalDateTimePattern": d.at(t), "InstantPattern": Instant.from_utc(d.year, d.month, d.day, t.hour, t.minute, t.second)}
+            for cls, L, ref in TABLE:
+                v = vals[cls.__name__]
+                case = {"kind": "route", "cls": cls.__name__, "letter": L, "culture": c.name}
+                ctx.ev(); ctx.count("letter_routes"); ctx.key(("route", cls.__name__, L, seps(c)[0] != ":"))
+                want = ref.format(v)
+                try:
+                    a = cls.create(L, c).format(v)
+                    CultureInfo.current_culture = c
+                    b = cls.create_with_current_culture(L).format(v)
+                    pr = cls.create(L, c).parse(want)
+                except Exception as e:  # noqa: BLE001
+                    ctx.exc(e); V(ctx, f"standard-letter-raised:{cls.__name__}:{L}", f"{cls.__name__} standard pattern {L!r} in culture {c.name!r} raised {e!r}", case, repr(e)); continue
+                finally:
+                    CultureInfo.current_culture = saved
+                if a != want or b != want:
+                    V(ctx, f"standard-letter-differs:{cls.__name__}:{L}", f"{cls.__name__} standard pattern {L!r} in culture {c.name!r} (time separator {seps(c)[0]!r}) writes {a!r} / {b!r} (as current culture); the ISO pattern writes {want!r}", case, a, want)
+                elif not pr.success or pr.value != ref.parse(want).value:
+                    V(ctx, f"standard-letter-parse:{cls.__name__}:{L}", f"{cls.__name__} standard pattern {L!r} in culture {c.name!r} does not read the ISO text {want!r} back", case)
+    finally:
+        CultureInfo.current_culture = saved
+    # first-use order, in fresh interpreters
+    from vf.props import c17_child
+    names = sorted(c17_child.accessors())
+    ref_out = {nm: ["ok", f()] for nm, f in c17_child.accessors().items()}
+    for k in range(n_orders):
+        order = list(names)
+        if k == 0: order.reverse()
+        elif k == 1: order.sort(key=lambda s_: ("iso" in s_ or "'R'" in s_, s_))       # the ISO date pattern touched last
+        else: rng.shuffle(order)
+        try:
+            r = subprocess.run([sys.executable, "-m", "vf.props.c17_child", _json.dumps(order)], capture_output=True, text=True, timeout=600, env=dict(os.environ), cwd=os.path.dirname(os.path.dirname(os.path.dirname(os.path.abspath(__file__)))))
+            line = [ln for ln in r.stdout.splitlines() if ln.startswith("@@C17CHILD ")]
+            out = _json.loads(line[-1][len("@@C17CHILD "):]) if line else None
+        except subprocess.TimeoutExpired:
+            out = None
+        if out is None:
+            ctx.inconc("first-use-order child produced no result"); continue
+        ctx.count("fresh_process_orders"); ctx.key(("first-use-order", k))
+        for nm in names:
+            ctx.ev()
+            if out.get(nm) != ref_out[nm]:
+                V(ctx, "first-use-order", f"in a fresh interpreter that touches the built-in patterns in the order {order[:4]}..., {nm} gives {out.get(nm)}; otherwise {ref_out[nm]}", {"kind": "route", "accessor": nm, "order": order}, out.get(nm), ref_out[nm])
+                break
+
+
 def run(ctx, shard):
     rng = ctx.rng
     part = shard["part"]
     for k in ("date", "time", "ldt", "instant", "offset"):
         ctx.counters.setdefault(k, 0)
+    if part == "routes":
+        check_wide_years(ctx, rng, 150 if ctx.tier == "quick" else 3000)
+        check_routes(ctx, rng, shard["orders"], shard["cultures"])
+        return
     if part == "dates":
         for o in range(shard["lo"], shard["hi"] + 1):
             check_date(ctx, o)
